@@ -147,14 +147,19 @@ func (msg RtmpMsg) IsHevcKeySeqHeader() bool {
 		return false
 	}
 
+	// a payload too short for its header (1 byte, or 5 bytes with the enhanced-rtmp fourcc) is not a sequence header
+	if len(msg.Payload) < 1 {
+		return false
+	}
+
 	isExtHeader := msg.Payload[0] & 0x80
 	if isExtHeader != 0 {
 		packetType := msg.Payload[0] & 0x0f
-		if msg.Payload[1] == 'h' && msg.Payload[2] == 'v' && msg.Payload[3] == 'c' && msg.Payload[4] == '1' && packetType == RtmpExPacketTypeSequenceStart {
+		if len(msg.Payload) >= 5 && msg.Payload[1] == 'h' && msg.Payload[2] == 'v' && msg.Payload[3] == 'c' && msg.Payload[4] == '1' && packetType == RtmpExPacketTypeSequenceStart {
 			return true
 		}
 	} else {
-		return msg.Payload[0] == RtmpHevcKeyFrame && msg.Payload[1] == RtmpHevcPacketTypeSeqHeader
+		return len(msg.Payload) >= 2 && msg.Payload[0] == RtmpHevcKeyFrame && msg.Payload[1] == RtmpHevcPacketTypeSeqHeader
 	}
 
 	return false
